@@ -24,7 +24,7 @@ TECHNIQUE = "exhaustive interruption-point enumeration: every split point (and p
 CLAIM = (
     "For every configuration of the lattice and every split point k = 0..n (thorough: every pair k1 < k2) the reconstruction is "
     "interrupted, saved and reloaded (zip and directory store, with raw data or with the dataset supplied on load) or cloned, and "
-    "continued with the same calls: iteration count, loss history, learning-rate history, constraints, object and probe right after "
+    "continued with the same calls (including learnable dataset parameters with their own optimizer, and object-filter constraints changed between reconstruct() calls before the split): iteration count, loss history, learning-rate history, constraints, object and probe right after "
     "reload equal the saved instance, and after continuing they equal the uninterrupted run within float32 tolerance. Enumerating every "
     "interruption point is the right level: a lost piece of state (optimizer moments, scheduler epoch, lr history) shows only at "
     "particular splits and only for particular optimizers/schedulers."
